@@ -5,7 +5,7 @@ from ..facts import Ctx, norm_cmp, exc_name
 from ..symex import show, walk, term_name
 from ..tokrun import feed
 from .. import pat as P
-from .c12 import Protocol, MOD
+from .c12 import Protocol, MOD, check_stop_marker
 from .c13 import drain_facts
 
 LEVEL = 'other'
@@ -17,7 +17,7 @@ def find_poll(cx, pr, tk):
     one-argument method of the hierarchy that looks into the inbox"""
     rd = cx.model.find_method(MOD, tk, 'read')
     if rd is not None:
-        for l in cx.leaves_of(*rd):
+        for l in cx.leaves_dyn(rd):
             for ct, tr, _ in l.conds:
                 t = ct
                 if t[0] == 'not':
@@ -64,7 +64,7 @@ def check_tokenizer_read(cx, pr, rep, tk, poll):
     rd = cx.model.find_method(MOD, tk, 'read')
     ispoll = lambda t: t == ('call', ('attr', ('self',), poll[2].name), (), ())
     nstop = ngo = 0
-    for l in cx.leaves_of(*rd):
+    for l in cx.leaves_dyn(rd):
         polls = [i for i, e in enumerate(l.effects) if e[0] == 'call' and ispoll(e[1])]
         reads = [i for i, e in enumerate(l.effects) if e[0] == 'call' and e[1][0] == 'call' and e[1][1][0] == 'attr' and e[1][1][2] == 'read' and e[1][1][1] != ('self',)]
         pc = [c for c in l.conds if ispoll(c[0])]
@@ -92,6 +92,7 @@ def check(repo, rep):
     if len(pr.inbox) != 1 or pr.stop is None:
         rep.unknown('worker protocol roles not identified')
         return
+    check_stop_marker(cx, rep, pr)
     tk = pr.tok
     W = lambda n: cx.where(MOD, n)
     # ---------------------------------------------------------------- T2 the stop poll never blocks and recognises the stop marker
@@ -99,7 +100,7 @@ def check(repo, rep):
     if poll is None:
         rep.unknown('no non-blocking stop poll found in the tokenizer worker hierarchy')
         return
-    pl = cx.leaves_of(*poll)
+    pl = cx.leaves_dyn(poll)
     sawT = sawE = False
     for l in pl:
         gets = [e for e in l.effects if e[0] == 'call' and pr.is_inbox_call(e[1], ('get', 'get_nowait'))]
@@ -159,7 +160,7 @@ def check(repo, rep):
     obs_f = [f for f, ds in tdefs.items() if any(any(x == ('p', 'observers') for x in walk(d['value'])) for d in ds)]
     rdr_f = [f for f, ds in tdefs.items() if any(d['value'] == ('p', 'reader') for d in ds)]
     looped = 0
-    for l in cx.leaves_of(*sa_):
+    for l in cx.leaves_dyn(sa_):
         cs = [(i, e[1]) for i, e in enumerate(l.effects) if e[0] == 'call']
         selfstop = [i for i, c in cs if c == ('call', ('attr', ('self',), 'stop'), (), ())]
         ins = [(i, e) for i, e in enumerate(l.effects) if e[0] == 'loop-enter']
@@ -179,7 +180,7 @@ def check(repo, rep):
     rep.ob('stop_all stops the observers (a loop over the observer list exists)', looped >= 1, cx.where(sa_[0], sa_[2]), 'TokenizerWorker.stop_all:no-observer-loop')
     # stop = send(STOP) then join  (F7 of C12)
     st = cx.model.find_method(MOD, cx.cls(MOD, 'Worker'), 'stop')
-    for l in cx.leaves_of(*st):
+    for l in cx.leaves_dyn(st):
         names = [e[1][1][2] for e in l.effects if e[0] == 'call' and e[1][0] == 'call' and e[1][1][0] == 'attr' and e[1][1][1] == ('self',)]
         jcs = [e[1] for e in l.effects if e[0] == 'call' and e[1][0] == 'call' and e[1][1] == ('attr', ('self',), 'join')]
         rep.ob('stop() joins without a time limit: when stop_all returns, the tokenizer has really stopped (nothing is read, flushed or delivered afterwards)', bool(jcs) and all(not j[2] and not j[3] for j in jcs),
@@ -188,7 +189,7 @@ def check(repo, rep):
     # ---------------------------------------------------------------- T4 saver close
     sc = cx.cls(MOD, 'StreamSaverWorker')
     cl = cx.model.find_method(MOD, sc, 'close')
-    for l in cx.leaves_of(*cl):
+    for l in cx.leaves_dyn(cl):
         cs = [e[1] for e in l.effects if e[0] == 'call']
         rclose = any(c[0] == 'call' and c[1][0] == 'attr' and c[1][2] == 'close' and c[1][1][0] == 'attr' and c[1][1][1] == ('self',) for c in cs)
         sstop = any(c == ('call', ('attr', ('self',), 'stop'), (), ()) for c in cs)
